@@ -353,6 +353,10 @@ func checkC15(c *Ctx) {
 		c.checkForwarderSSA("O5 fan-out", fwdSpec{fn: fn, list: fTs, target: m.name, mode: m.mode, perIter: 1})
 	}
 	c.floor("O5 fan-out", nF, 5)
+	// the destination list (and each destination's socket) is fixed at construction: emptying or
+	// replacing it later makes IsOpen/Write/Flush vacuous successes (use after Close must fail)
+	c.checkSetOnlyAtConstruction("O5 fixed-destinations", pk, "TMultiUDPTransport", "transports")
+	c.checkSetOnlyAtConstruction("O5 fixed-destinations", pk, "TUDPTransport", "conn", "addr")
 
 	// ---- O6 Close ------------------------------------------------------------------------------------
 	if cl := c.fn(pk, "TUDPTransport", "Close"); cl != nil {
